@@ -81,6 +81,10 @@ func NewLevelListFromDocument(fs storage.FileSystem, dataOwnership kv.DataOwners
 }
 
 func (ll *LevelList) Get(key []byte) (kv.Entry, error) {
+	// Level 0 tables overlap and are not visited newest first, so the first hit
+	// is not necessarily the latest write. Keep the entry with the highest
+	// sequence number.
+	var latest kv.Entry
 	for t := range ll.AllTablesForKey(key) {
 		v, err := t.Get(key)
 		if err != nil {
@@ -89,9 +93,14 @@ func (ll *LevelList) Get(key []byte) (kv.Entry, error) {
 			}
 			return nil, fmt.Errorf("table %#v, %w", t, err)
 		}
-		return v, nil
+		if latest == nil || v.SeqNum() > latest.SeqNum() {
+			latest = v
+		}
 	}
-	return nil, kv.ErrNotFound
+	if latest == nil {
+		return nil, kv.ErrNotFound
+	}
+	return latest, nil
 }
 
 func (ll *LevelList) ScanPrefix(prefix []byte, errOut *error) iter.Seq[kv.Entry] {
